@@ -886,7 +886,7 @@ impl Stdfs {
     /// assert_vfs_remove_all!(vfs, &tmpdir);
     /// ```
     pub fn is_dir<T: AsRef<Path>>(path: T) -> bool {
-        match fs::symlink_metadata(path.as_ref()) {
+        match Stdfs::abs(path).and_then(|x| Ok(fs::symlink_metadata(x)?)) {
             Ok(x) => !x.file_type().is_symlink() && x.is_dir(),
             _ => false,
         }
@@ -909,7 +909,7 @@ impl Stdfs {
     /// assert_vfs_remove_all!(vfs, &tmpdir);
     /// ```
     pub fn is_file<T: AsRef<Path>>(path: T) -> bool {
-        match fs::symlink_metadata(path.as_ref()) {
+        match Stdfs::abs(path).and_then(|x| Ok(fs::symlink_metadata(x)?)) {
             Ok(x) => !x.file_type().is_symlink() && x.is_file(),
             _ => false,
         }
